@@ -348,7 +348,16 @@ func collectAccesses(p *core.Prog, f *types.Var) []fieldAccess {
 				if fv, _ := core.FieldOf(x); fv != f {
 					return
 				}
-				if al, ok := x.X.(*ssa.Alloc); ok && isConstructionAlloc(al) {
+				// (fields of nested by-value structs of) an object under construction
+				root := x.X
+				for d := 0; d < 4; d++ {
+					fa, ok := root.(*ssa.FieldAddr)
+					if !ok {
+						break
+					}
+					root = fa.X
+				}
+				if al, ok := root.(*ssa.Alloc); ok && isConstructionAlloc(al) {
 					return
 				}
 				if isOptionClosureParam(fn, x.X) {
